@@ -39,7 +39,7 @@ from sims import s2_mon as M
 
 PROPERTY = "C15"
 LEVEL = "exploration"
-QUICK_RUNS = 1200
+QUICK_RUNS = 1000
 THOROUGH_RUNS = 160_000
 QUICK_BUDGET_S = 100
 THOROUGH_BUDGET_S = 1500
@@ -348,9 +348,13 @@ def run(ctx: RunCtx) -> None:
 
                 if status >= 500:
                     tail = [ln for ln in rec["stderr"].strip().splitlines() if ln.strip()]
-                    exc_cls = tail[-1].split(":")[0].strip() if tail else "unknown"
+                    exc_cls = tail[-1].split(":")[0].strip().rsplit(".", 1)[-1] if tail else "unknown"
                     report("5xx", f"{rk}:{exc_cls}", f"{what} was answered HTTP {status}; server-side exception: {tail[-1] if tail else '?'}; "
                            f"body {rec['resp_body'][:120]!r}")
+                    continue
+                if status == 200 and rk in ("unary", "init") and not entered:
+                    report("200-without-dispatch", f"{rk}:{resp_cls}", f"{what}: HTTP 200 (X-VGI-RPC-Error={marker}) although the method was "
+                           f"never invoked - a request that never became a call must be a 4xx; body says {M.exception_messages(dec)[:1]}")
                     continue
                 if must:
                     if status not in must | maybe:
@@ -372,10 +376,6 @@ def run(ctx: RunCtx) -> None:
                         report("body-no-error-batch", f"{rk}:{status}", f"{what}: HTTP {status} body carries no EXCEPTION batch")
                         continue
                 if status == 200:
-                    if rk in ("unary", "init") and not entered:
-                        report("200-without-dispatch", f"{rk}:{resp_cls}", f"{what}: HTTP 200 (X-VGI-RPC-Error={marker}) although the method "
-                               f"was never invoked; body says {M.exception_messages(dec)[:1]}")
-                        continue
                     if marker != bool(hx):
                         report("marker", f"{rk}:marker={marker},exception={bool(hx)}", f"{what}: X-VGI-RPC-Error={marker} but the body "
                                f"{'carries' if hx else 'carries no'} EXCEPTION batch")
